@@ -674,4 +674,108 @@ example : sessionObjs componentCatalog 5 [("ConnectX-6", "SmartNIC", none, none)
   decide +kernel
 example : ∃ e ∈ instanceCatalog, le3 ⟨3, 5, 11⟩ e.2 = true := ⟨("fabric.c4.m8.d100", ⟨4, 8, 100⟩), by decide +kernel, by decide⟩
 
+/-! #### the model named through the combined enumeration -/
+
+theorem rowOfT_typeTable (type : String) : rowOfT typeTable type = rowOf type := rfl
+
+theorem generateT_typeTable (cat : List CEntry) (name model type : String) (nsId : Option String)
+    (ids : Option (List String)) (labels : Option (List Bdf)) (parent : Option String) :
+    generateT typeTable cat name model type nsId ids labels parent = generate cat name model type nsId ids labels parent := by
+  rfl
+
+/-- the per-type rules probed on the `model_type=` path are the ones probed on the `(ctype, model)` path -/
+theorem current_member_path_rules : typeTableM = typeTable := by decide
+
+/-- every member of the enumeration of the current catalogue denotes its own entry (names are distinct) -/
+theorem current_member_entries :
+    componentCatalog.all (fun e => memberEntry componentCatalog (enumName e) == some e) = true := by decide +kernel
+
+/-- naming a model through the enumeration is naming it by its entry's (type, model): same result, same errors, whatever the
+other arguments are -/
+theorem member_path_eq (cat : List CEntry) (hT : typeTableM = typeTable) (name member : String) (nsId : Option String)
+    (ids : Option (List String)) (labels : Option (List Bdf)) (parent : Option String) (e : CEntry)
+    (he : memberEntry cat member = some e) :
+    generateM cat name member nsId ids labels parent = some (generate cat name e.model e.type nsId ids labels parent) := by
+  simp only [generateM, he, Option.map_some, hT]
+  rfl
+
+/-- **Every member of the enumeration generates its own entry**, with the catalogued interfaces, speeds, kinds and unit counts,
+for any consistent arguments (current catalogue). -/
+theorem current_members_generate (e : CEntry) (he : e ∈ componentCatalog)
+    (name : String) (nsId : Option String) (ids : Option (List String)) (labels : Option (List Bdf)) (parent : Option String)
+    (hc : Consistent e ids labels) :
+    ∃ g, generateM componentCatalog name (enumName e) nsId ids labels parent = some (.ok g) ∧ Matches e name ids labels g := by
+  have hm : memberEntry componentCatalog (enumName e) = some e := by
+    have := List.all_eq_true.mp current_member_entries e he
+    simpa using this
+  obtain ⟨g, hg, hmatch⟩ := current_models_generate e he e.model (Or.inl rfl) name nsId ids labels parent hc
+  exact ⟨g, by rw [member_path_eq componentCatalog current_member_path_rules name _ nsId ids labels parent e hm, hg], hmatch⟩
+
+/-! #### consumers of catalogue objects -/
+
+theorem current_consumer_ops_pure : consumerWrites = [] := by decide
+
+theorem cstep_cat (hW : consumerWrites = []) (st : CState) (op : COp) : (cstep st op).1.cat = st.cat := by
+  cases op <;> simp only [cstep, writes, hW, List.contains_nil, Bool.false_eq_true, if_false] <;> (try rfl)
+  all_goals (split <;> rfl)
+
+/-- **Consumers leave the catalogue alone**: whatever a consumer computes with the objects the catalogue hands out, the
+catalogue afterwards is the one that was loaded -/
+theorem consumers_leave_catalogue (hW : consumerWrites = []) (ops : List COp) :
+    ∀ st : CState, (crun st ops).1.cat = st.cat := by
+  induction ops with
+  | nil => intro st; rfl
+  | cons op rest ih =>
+    intro st
+    simp only [crun]
+    rw [ih, cstep_cat hW]
+
+theorem cstep_out (hW : consumerWrites = []) (st : CState) (op : COp) (x : COut) (h : (cstep st op).2 = some x) :
+    (∃ n, x = .caps (capsOf st.cat n)) ∨ (∃ s, x = .name (pick st.cat s)) := by
+  cases op with
+  | get h n => simp [cstep] at h
+  | fresh h s => simp [cstep] at h
+  | aug add h1 h2 => simp [cstep, writes, hW] at h
+  | bin op h3 h1 h2 => simp [cstep] at h
+  | use op h1 h2 => simp [cstep] at h
+  | scribble h1 =>
+    simp only [cstep] at h
+    split at h <;> simp at h
+  | query n => left; exact ⟨n, by simpa [cstep] using h.symm⟩
+  | pick s => right; exact ⟨s, by simpa [cstep] using h.symm⟩
+  | pickh h1 => right; exact ⟨st.val h1, by simpa [cstep] using h.symm⟩
+
+/-- … so every answer given during the session is an answer of the loaded catalogue: a size's capacities by name, or the
+stateless `pick` (to which the sizing theorems apply) -/
+theorem consumer_answers_from_loaded_catalogue (hW : consumerWrites = []) (ops : List COp) :
+    ∀ st : CState, ∀ o ∈ (crun st ops).2, (∃ n, o = .caps (capsOf st.cat n)) ∨ (∃ s, o = .name (pick st.cat s)) := by
+  induction ops with
+  | nil => intro st o ho; simp [crun] at ho
+  | cons op rest ih =>
+    intro st o ho
+    simp only [crun] at ho
+    have hc := cstep_cat hW st op
+    have hrest := ih (cstep st op).1
+    rw [hc] at hrest
+    cases hop : (cstep st op).2 with
+    | none => rw [hop] at ho; exact hrest o ho
+    | some x =>
+      rw [hop] at ho
+      rcases List.mem_cons.mp ho with rfl | ho'
+      · exact cstep_out hW st op _ hop
+      · exact hrest o ho'
+
+theorem current_consumer_sessions (ops : List COp) (env : List (Nat × Ref)) :
+    (crun ⟨instanceCatalog, env⟩ ops).1.cat = instanceCatalog ∧
+    ∀ o ∈ (crun ⟨instanceCatalog, env⟩ ops).2,
+      (∃ n, o = .caps (capsOf instanceCatalog n)) ∨ (∃ s, o = .name (pick instanceCatalog s)) :=
+  ⟨consumers_leave_catalogue current_consumer_ops_pure ops _, consumer_answers_from_loaded_catalogue current_consumer_ops_pure ops _⟩
+
+example : (crun ⟨instanceCatalog, []⟩ [.get 0 "fabric.c2.m8.d10", .get 1 "fabric.c8.m32.d100", .aug true 0 1, .query "fabric.c2.m8.d10", .pickh 0]).2
+    = [.caps (some ⟨2, 8, 10⟩), .name (some "fabric.c10.m64.d500")] := by decide +kernel
+example : memberEntry componentCatalog "SharedNIC_ConnectX_6" = some ⟨"ConnectX-6", [], "SharedNIC", "Mellanox ConnectX-6 VPI MCX653 dual port 100Gbps", true, [("p1", 100)]⟩ := by
+  decide +kernel
+example : ((generateM componentCatalog "c" "SharedNIC_ConnectX_6" none none none none).map (fun r => r.toOption.map (fun g => g.ifaces.map (·.bw)))) = some (some [0]) := by
+  decide +kernel
+
 end FimVerif.C18
